@@ -66,6 +66,88 @@ SIGNATURES = {
 }
 
 
+# ------------------------------------------------------------------ int -> long widening sites (own closed-form model)
+# docs: an int is accepted wherever a long is declared (variable, assignment, parameter, return value, field) and is a long
+# from then on: arithmetic with another int no longer wraps at 32 bits and overload selection sees a long.
+
+from hypothesis import strategies as st
+
+W_BIG = [2000000000, 1073741824, 2147483647, 46341, 65536, -2000000000, 1000000007, 3, 0]
+W_SITES = ["decl", "assign", "fparam", "fret", "fret_expr", "mparam", "mret", "ctor", "field_init", "field_assign", "static_assign",
+           "static_init", "pick_var", "pick_fret", "pick_mret", "chain"]
+W_PRELUDE = """class W {{
+    public long fld = {e};
+    public static long sfld = {e};
+    public long g;
+    public constructor(long p) -> W {{ this.g = p; return this; }}
+    public function viaParam(long p, int x) -> long {{ return p {op} x; }}
+    public function viaRet(int a) -> long {{ return a; }}
+    public function pick(int a) -> string {{ return "int"; }}
+    public function pick(long a) -> string {{ return "long"; }}
+}}
+function fParam(long p, int x) -> long {{ return p {op} x; }}
+function fRet(int a) -> long {{ return a; }}
+function fRetExpr(int a, int b) -> long {{ return a - b; }}
+"""
+
+
+def _wrap(v, bits):
+    m = 1 << bits
+    v &= m - 1
+    return v - m if v >= m >> 1 else v
+
+
+@st.composite
+def widen_case(draw):
+    return {"kind": "widen", "e": draw(st.sampled_from(W_BIG)), "x": draw(st.sampled_from(W_BIG)), "op": draw(st.sampled_from(["+", "-", "*"])),
+            "sites": draw(st.lists(st.sampled_from(W_SITES), min_size=1, max_size=6))}
+
+
+def widen_program(case):
+    e, x, op = case["e"], case["x"], case["op"]
+    lit = lambda v: str(v) if v >= 0 else f"(0 - {-v})"
+    body = [f"int e = {lit(e)};", f"int x = {lit(x)};", "W w = new W(1);"]
+    exp = []
+    f = {"+": lambda a, b: a + b, "-": lambda a, b: a - b, "*": lambda a, b: a * b}[op]
+    L = str(_wrap(f(e, x), 64))
+    for n, site in enumerate(case["sites"]):
+        v = f"v{n}"
+        if site == "decl":
+            body += [f"long {v} = e;", f"echo({v} {op} x);"]; exp.append(L)
+        elif site == "assign":
+            body += [f"long {v} = 0L;", f"{v} = e;", f"echo({v} {op} x);"]; exp.append(L)
+        elif site == "fparam":
+            body += [f"echo(fParam(e, x));"]; exp.append(L)
+        elif site == "fret":
+            body += [f"echo(fRet(e) {op} x);"]; exp.append(L)
+        elif site == "fret_expr":
+            body += [f"echo(fRetExpr(e, 0) {op} x);"]; exp.append(L)
+        elif site == "mparam":
+            body += [f"echo(w.viaParam(e, x));"]; exp.append(L)
+        elif site == "mret":
+            body += [f"echo(w.viaRet(e) {op} x);"]; exp.append(L)
+        elif site == "ctor":
+            body += [f"W {v} = new W(e);", f"echo({v}.g {op} x);"]; exp.append(L)
+        elif site == "field_init":
+            body += [f"echo(w.fld {op} x);"]; exp.append(L)
+        elif site == "field_assign":
+            body += [f"w.g = e;", f"echo(w.g {op} x);"]; exp.append(L)
+        elif site == "static_assign":
+            body += [f"W.sfld = e;", f"echo(W.sfld {op} x);"]; exp.append(L)
+        elif site == "static_init":
+            body += [f"echo(W.sfld {op} x);"]; exp.append(L)
+        elif site == "pick_var":
+            body += [f"long {v} = e;", f"echo(w.pick({v}));"]; exp.append("long")
+        elif site == "pick_fret":
+            body += [f"echo(w.pick(fRet(e)));"]; exp.append("long")
+        elif site == "pick_mret":
+            body += [f"echo(w.pick(w.viaRet(e)));"]; exp.append("long")
+        elif site == "chain":
+            body += [f"long {v} = fRet(e) {op} x;", f"echo({v});", f"echo(w.pick(e));"]; exp += [L, "int"]
+    src = W_PRELUDE.format(e=lit(e), op=op) + "function main() -> void {\n    " + "\n    ".join(body) + "\n}\n"
+    return src, exp
+
+
 class C07(Check):
     prop = "C07"
     rule = ("programs from the typed `classic` generator (1-4 functions + main, all operators, casts, arrays, loops, "
@@ -77,7 +159,26 @@ class C07(Check):
                    "on a runtime error only the error kind is compared"]
     floors = {"__nontrivial__": (1500, 20000), "agree_error": (100, 1000)}
 
+    def widen_run(self, case, sc, stats=None):
+        src, want = widen_program(case)
+        r = progrun.run_cli(self.drv, sc, src)
+        if r.proc.timeout:
+            return None
+        if stats is not None:
+            big = abs(case["e"]) >= 2 ** 30 or abs(case["x"]) >= 2 ** 30
+            stats.record(case, big, tags=["widening_family"] + ["site_" + x for x in set(case["sites"])],
+                         sample={"main": src[src.index("function main"):], "expected": want})
+        if r.diag and r.diag["cat"] in ("Lexical", "Parse", "Semantic"):
+            return {"why": f"well-typed widening program rejected: {r.diag}", "source": src}
+        if r.proc.crashed() or r.rc != 0:
+            return {"why": f"widening program failed: rc={r.rc} {r.stderr_lines[-1:]}", "source": src, **r.proc.brief()}
+        if list(r.stdout_lines) != want:
+            return {"why": "an int stored into a long slot did not behave as a long", "expected": want, "got": list(r.stdout_lines), "source": src}
+        return None
+
     def run_case(self, p, sc, stats=None):
+        if p.get("kind") == "widen":
+            return self.widen_run(p, sc, stats)
         try:
             ref = ref_classic.run_reference(p)
         except ref_classic.Undocumented as u:
@@ -120,6 +221,8 @@ class C07(Check):
             return self.run_case(case, sc)
 
     def classify(self, case, why=None):
+        if case.get("kind") == "widen":
+            return None
         for k, pred in SIGNATURES.items():
             if pred(case):
                 return k
@@ -136,13 +239,16 @@ def _worker(widx, wseed, tier, check):
     with Scratch("c07") as sc:
         def prop(case, stats):
             for k in act:
-                if SIGNATURES[k](case):
+                if case.get("kind") != "widen" and SIGNATURES[k](case):
                     stats.excluded[k] = stats.excluded.get(k, 0) + 1
                     return
             why = check.run_case(case, sc, stats)
             if why is not None:
                 raise Failure(why)
         f = hyp_search(genprog.classic_program(), prop, wseed, 400 if tier == "quick" else 8000, stats)
+        if f:
+            failures.append(f)
+        f = hyp_search(widen_case(), prop, common.derive_seed(wseed, "widen"), 60 if tier == "quick" else 1500, stats)
         if f:
             failures.append(f)
     return {"stats": stats.export(), "failures": failures}
